@@ -118,17 +118,30 @@ package bt
 //@   ensures[clonescript] (and (not (nil? result)) (= (len result) (ite (nil? s) 0 (old (len s)))))
 //@ func bt.(*Tx).Clone
 //@   bytes array
+//@   opt closed-heaps 1
 //@   opt frame-all 1
 //@   fresh result
 //@   ensures[clone_nonnil] (not (nil? result))
 //@   ensures[clone_counts] (and (= (len (. result Inputs)) (len (. tx Inputs))) (= (len (. result Outputs)) (len (. tx Outputs))))
 //@   ensures[clone_inputs_fresh] (forall ((k Int)) (=> (and (<= 0 k) (< k (len (. result Inputs)))) (and (not (nil? (at (. result Inputs) k))) (fresh (at (. result Inputs) k)))))
 //@   ensures[clone_outputs_fresh] (forall ((k Int)) (=> (and (<= 0 k) (< k (len (. result Outputs)))) (and (not (nil? (at (. result Outputs) k))) (fresh (at (. result Outputs) k)))))
+//@   ensures[clone_prev_fields] (forall ((k Int)) (=> (and (<= 0 k) (< k (len (. result Inputs)))) (and (= (. (at (. result Inputs) k) PreviousTxScript) (old (. (at (. tx Inputs) k) PreviousTxScript))) (= (. (at (. result Inputs) k) PreviousTxSatoshis) (old (. (at (. tx Inputs) k) PreviousTxSatoshis))) (not (nil? (. (at (. result Inputs) k) UnlockingScript))))))
+//@   ensures[clone_out_sats] (forall ((k Int)) (=> (and (<= 0 k) (< k (len (. result Outputs)))) (= (. (at (. result Outputs) k) Satoshis) (old (. (at (. tx Outputs) k) Satoshis)))))
 //@   ensures[clone_scripts_nonnil] (forall ((k Int)) (=> (and (<= 0 k) (< k (len (. result Outputs)))) (not (nil? (. (at (. result Outputs) k) LockingScript)))))
 //@   requires (forall ((k Int)) (=> (and (<= 0 k) (< k (len (. tx Inputs)))) (not (nil? (at (. tx Inputs) k)))))
 //@   requires (forall ((k Int)) (=> (and (<= 0 k) (< k (len (. tx Outputs)))) (not (nil? (at (. tx Outputs) k)))))
 //@   loop 0 invariant (and (not (nil? clone)) (fresh clone) (= (len (. clone Inputs)) (+ rangeindex 1)) (or (nil? (. clone Inputs)) (fresh (. clone Inputs))))
 //@   loop 0 invariant (forall ((k Int)) (=> (and (<= 0 k) (< k (len (. clone Inputs)))) (and (not (nil? (at (. clone Inputs) k))) (fresh (at (. clone Inputs) k)))))
+//@   loop 0 invariant (forall ((k Int)) (=> (and (<= 0 k) (< k (len (. tx Inputs)))) (and (= (at (. tx Inputs) k) (old (at (. tx Inputs) k))) (= (. (at (. tx Inputs) k) PreviousTxScript) (old (. (at (. tx Inputs) k) PreviousTxScript))) (= (. (at (. tx Inputs) k) PreviousTxSatoshis) (old (. (at (. tx Inputs) k) PreviousTxSatoshis))))))
+//@   loop 0 invariant (forall ((k Int)) (=> (and (<= 0 k) (< k (len (. clone Inputs)))) (allocated (at (. clone Inputs) k))))
+//@   loop 1 invariant (forall ((k Int)) (=> (and (<= 0 k) (< k (len (. tx Outputs)))) (and (= (at (. tx Outputs) k) (old (at (. tx Outputs) k))) (= (. (at (. tx Outputs) k) Satoshis) (old (. (at (. tx Outputs) k) Satoshis))))))
+//@   loop 1 invariant (forall ((k Int)) (=> (and (<= 0 k) (< k (len (. clone Inputs)))) (allocated (at (. clone Inputs) k))))
+//@   loop 1 invariant (forall ((k Int)) (=> (and (<= 0 k) (< k (len (. clone Outputs)))) (allocated (at (. clone Outputs) k))))
+//@   loop 0 invariant (forall ((k Int)) (=> (and (<= 0 k) (< k (len (. clone Inputs)))) (and (= (. (at (. clone Inputs) k) PreviousTxScript) (old (. (at (. tx Inputs) k) PreviousTxScript))) (= (. (at (. clone Inputs) k) PreviousTxSatoshis) (old (. (at (. tx Inputs) k) PreviousTxSatoshis))) (not (nil? (. (at (. clone Inputs) k) UnlockingScript))))))
+//@   loop 1 invariant (forall ((k Int)) (=> (and (<= 0 k) (< k (len (. clone Inputs)))) (= (. (at (. clone Inputs) k) PreviousTxScript) (old (. (at (. tx Inputs) k) PreviousTxScript)))))
+//@   loop 1 invariant (forall ((k Int)) (=> (and (<= 0 k) (< k (len (. clone Inputs)))) (= (. (at (. clone Inputs) k) PreviousTxSatoshis) (old (. (at (. tx Inputs) k) PreviousTxSatoshis)))))
+//@   loop 1 invariant (forall ((k Int)) (=> (and (<= 0 k) (< k (len (. clone Inputs)))) (not (nil? (. (at (. clone Inputs) k) UnlockingScript)))))
+//@   loop 1 invariant (forall ((k Int)) (=> (and (<= 0 k) (< k (len (. clone Outputs)))) (= (. (at (. clone Outputs) k) Satoshis) (old (. (at (. tx Outputs) k) Satoshis)))))
 //@   loop 0 invariant (forall ((k Int)) (=> (and (<= 0 k) (< k (len (. tx Inputs)))) (not (nil? (at (. tx Inputs) k)))))
 //@   loop 0 invariant (forall ((k Int)) (=> (and (<= 0 k) (< k (len (. tx Outputs)))) (not (nil? (at (. tx Outputs) k)))))
 //@   loop 1 invariant (forall ((k Int)) (=> (and (<= 0 k) (< k (len (. tx Outputs)))) (not (nil? (at (. tx Outputs) k)))))
@@ -188,7 +201,6 @@ package bt
 //@   assigns
 
 //@ func bt.(*Tx).change
-//@   bytes array
 //@   int-overflow check
 //@   lemma (=> (and (not (nil? output)) (. output newOutput) (not (nil? (. output lockingScript)))) (= changeBytes (spec.new_output_bytes (len (. output lockingScript)) (old (len (. tx Outputs))))))
 //@   requires (spec.inputs_nonnil tx) (spec.outputs_nonnil tx)
@@ -202,7 +214,7 @@ package bt
 //@   ensures[C10.fee_left_existing_output] (=> (and (= err nil) r1 (nil? output)) (and (= (- (old (spec.sum_in tx)) (+ (old (spec.sum_out tx)) r0)) (spec.quoted f (old (spec.est_std tx)) (old (spec.est_data tx)))) (= (. tx Outputs) (old (. tx Outputs)))))
 //@   ensures[C10.existing_outputs_untouched] (=> (= err nil) (forall ((k Int)) (=> (and (<= 0 k) (< k (old (len (. tx Outputs))))) (= (at (. tx Outputs) k) (old (at (. tx Outputs) k))))))
 //@   ensures[C10.outputs_stay_nonnil] (=> (and (= err nil) (or (nil? output) (not (. output newOutput)))) (spec.outputs_nonnil tx))
-//@   ensures[C10.change_output_appended] (=> (and (= err nil) r1 (not (nil? output)) (. output newOutput)) (and (= (len (. tx Outputs)) (+ (old (len (. tx Outputs))) 1)) (= (. (at (. tx Outputs) (old (len (. tx Outputs)))) Satoshis) r0) (= (. (at (. tx Outputs) (old (len (. tx Outputs)))) LockingScript) (. output lockingScript)) (forall ((k Int)) (=> (and (<= 0 k) (< k (old (len (. tx Outputs))))) (= (at (. tx Outputs) k) (old (at (. tx Outputs) k)))))))
+//@   ensures[C10.change_output_appended] (=> (and (= err nil) r1 (not (nil? output)) (. output newOutput)) (and (= (len (. tx Outputs)) (+ (old (len (. tx Outputs))) 1)) (= (. (at (. tx Outputs) (old (len (. tx Outputs)))) Satoshis) r0) (= (. (at (. tx Outputs) (old (len (. tx Outputs)))) LockingScript) (. output lockingScript))))
 
 //@ func bt.(*Tx).Change
 //@   requires (spec.inputs_nonnil tx) (spec.outputs_nonnil tx)
@@ -246,3 +258,102 @@ package bt
 //@ func bt.defaultDataFee
 //@   fresh result
 //@   ensures[defdata] (not (nil? result))
+
+// ---- JSON interchange (C16) ----
+//@ func bt.(*nodeOutputJSON).fromOutput
+//@   requires (not (nil? (. out LockingScript))) (<= (. out Satoshis) 2100000000000000)
+//@   ensures[C16.amount_encoded] (=> (= err nil) (spec.coin_close (. o Value) (old (. out Satoshis))))
+//@ func bt.(*nodeOutputJSON).toOutput
+//@   ensures[C16.amount_decoded] (=> (= err nil) (forall ((s Int)) (=> (spec.coin_close (old (. o Value)) s) (= (. result Satoshis) s))))
+//@ func bt.(*nodeUTXOWrapper).UnmarshalJSON
+//@   lemma (forall ((s Int)) (=> (spec.coin_close (. uj Amount) s) (= (. (. n UTXO) Satoshis) s)))
+//@ func bt.(*Output).LockingScriptHexString
+//@   requires (not (nil? (. o LockingScript)))
+//@ func bt.(*UTXO).LockingScriptHexString
+//@   requires (not (nil? (. u LockingScript)))
+//@ func bt.(*nodeTxWrapper).MarshalJSON
+//@   requires (not (nil? (. n Tx))) (spec.wf_tx_json (. n Tx))
+//@ func bt.(*nodeOutputWrapper).MarshalJSON
+//@   requires (not (nil? (. n Output))) (not (nil? (. (. n Output) LockingScript))) (<= (. (. n Output) Satoshis) 2100000000000000)
+//@ func bt.(*nodeUTXOWrapper).MarshalJSON
+//@   requires (not (nil? (. n UTXO))) (not (nil? (. (. n UTXO) LockingScript)))
+//@ func bt.(*UTXO).MarshalJSON
+//@   requires (not (nil? (. u LockingScript)))
+//@ func bt.(*Output).MarshalJSON
+//@   requires (not (nil? (. o LockingScript)))
+//@ func bt.(*Tx).NodeJSON
+//@   ensures[nodejson_tx] (and (has-type result *bt.nodeTxWrapper) (not (nil? (unbox result *bt.nodeTxWrapper))) (= (. (unbox result *bt.nodeTxWrapper) Tx) tx))
+//@ func bt.(*UTXO).NodeJSON
+//@   ensures[nodejson_utxo] (and (has-type result *bt.nodeUTXOWrapper) (not (nil? (unbox result *bt.nodeUTXOWrapper))) (= (. (unbox result *bt.nodeUTXOWrapper) UTXO) u))
+//@ func bt.nodeTxsWrapper.MarshalJSON
+//@   requires (forall ((k Int)) (=> (and (<= 0 k) (< k (len nn))) (not (nil? (at nn k)))))
+//@ func bt.nodeUTXOsWrapper.MarshalJSON
+//@   requires (forall ((k Int)) (=> (and (<= 0 k) (< k (len nn))) (not (nil? (at nn k)))))
+
+// ---- size and fee accounting (C11) ----
+//@ func bt.(*Tx).SizeWithTypes
+//@   opt defs data_sum
+//@   requires (spec.out_scripts_nonnil tx) (spec.inputs_nonnil tx)
+//@   int-overflow check
+//@   fresh result
+//@   ensures[C11.size_data_bytes] (and (not (nil? result)) (= (. result TotalDataBytes) (old (spec.data_bytes tx))))
+//@   ensures[C11.size_split] (=> (<= (old (spec.data_bytes tx)) (. result TotalBytes)) (= (+ (. result TotalStdBytes) (. result TotalDataBytes)) (. result TotalBytes)))
+//@   loop 0 invariant (and (<= 0 dataLen) (= dataLen (spec.data_bytes_k tx (+ rangeindex 1))))
+//@   loop 0 invariant (spec.out_scripts_nonnil tx)
+
+//@ func bt.(*Tx).feesPaid
+//@   int-overflow check
+//@   requires (=> (not (nil? fees)) (spec.wf_quote fees))
+//@   requires (<= (. size TotalStdBytes) 2199023255552) (<= (. size TotalDataBytes) 2199023255552)
+//@   ensures[C11.fees_formula] (=> (= err nil) (and (not (nil? result)) (= (. result StdFeePaid) (spec.fee_of (old (. size TotalStdBytes)) (spec.fee_sat fees "standard") (spec.fee_bytes fees "standard"))) (= (. result DataFeePaid) (spec.fee_of (old (. size TotalDataBytes)) (spec.fee_sat fees "data") (spec.fee_bytes fees "data"))) (= (. result TotalFeePaid) (+ (. result StdFeePaid) (. result DataFeePaid)))))
+// serialisers build new byte strings and write nothing that existed before (checked against the write analysis)
+//@ func bt.(*Tx).Size
+//@   pure
+//@ func bt.(*Tx).Bytes
+//@   pure
+//@ func bt.(*Tx).toBytesHelper
+//@   pure
+//@ func bt.(*Tx).Size
+//@   ensures[size_is_ser_len] (and (= result (spec.ser_len tx)) (<= 0 result))
+//@   trusted "ser_len is the abstract serialised length; len(Bytes()) is tied to the wire format under C01"
+
+//@ func bt.(*Tx).SizeWithTypes
+//@   ensures[C11.size_total] (= (. result TotalBytes) (old (spec.ser_len tx)))
+
+//@ func bt.(*Tx).IsFeePaidEnough
+//@   requires (spec.out_scripts_nonnil tx) (spec.inputs_nonnil tx)
+//@   requires (=> (not (nil? fees)) (spec.wf_quote fees))
+//@   requires (< (spec.sum_in tx) 18446744073709551616) (< (spec.sum_out tx) 18446744073709551616) (<= 0 (spec.sum_in tx)) (<= 0 (spec.sum_out tx))
+//@   requires (<= (spec.data_bytes tx) (spec.ser_len tx)) (<= (spec.ser_len tx) 2199023255552)
+//@   ensures[C11.fee_paid_enough_iff] (=> (= err nil) (= r0 (and (>= (old (spec.sum_in tx)) (old (spec.sum_out tx))) (>= (- (old (spec.sum_in tx)) (old (spec.sum_out tx))) (spec.quoted fees (- (old (spec.ser_len tx)) (old (spec.data_bytes tx))) (old (spec.data_bytes tx)))))))
+
+//@ func bt.(*Tx).estimatedFinalTx
+//@   bytes array
+//@   opt closed-heaps 1
+//@   requires (spec.inputs_nonnil tx) (spec.outputs_nonnil tx)
+//@   fresh result
+//@   ensures[est_final_wf] (=> (= err nil) (and (not (nil? result)) (spec.inputs_nonnil result) (spec.out_scripts_nonnil result) (= (len (. result Inputs)) (len (. tx Inputs))) (= (len (. result Outputs)) (len (. tx Outputs)))))
+//@   ensures[C11.estimate_needs_prev_script] (=> (= err nil) (forall ((k Int)) (=> (and (<= 0 k) (< k (len (. tx Inputs)))) (not (nil? (old (. (at (. tx Inputs) k) PreviousTxScript)))))))
+//@   ensures[C11.estimate_fills_unlocking] (=> (= err nil) (forall ((k Int)) (=> (and (<= 0 k) (< k (len (. result Inputs)))) (and (not (nil? (. (at (. result Inputs) k) UnlockingScript))) (> (len (. (at (. result Inputs) k) UnlockingScript)) 0)))))
+//@   ensures[est_final_amounts] (=> (= err nil) (and (forall ((k Int)) (=> (and (<= 0 k) (< k (len (. result Inputs)))) (= (. (at (. result Inputs) k) PreviousTxSatoshis) (old (. (at (. tx Inputs) k) PreviousTxSatoshis))))) (forall ((k Int)) (=> (and (<= 0 k) (< k (len (. result Outputs)))) (= (. (at (. result Outputs) k) Satoshis) (old (. (at (. tx Outputs) k) Satoshis)))))))
+//@   loop 0 invariant (and (not (nil? tempTx)) (spec.clone_ok tempTx) (spec.out_scripts_ok tempTx) (= (len (. tempTx Inputs)) (len (. tx Inputs))) (= (len (. tempTx Outputs)) (len (. tx Outputs))))
+//@   loop 0 invariant (forall ((k Int)) (=> (and (<= 0 k) (<= k rangeindex) (< k (len (. tx Inputs)))) (and (not (nil? (old (. (at (. tx Inputs) k) PreviousTxScript)))) (not (nil? (. (at (. tempTx Inputs) k) UnlockingScript))) (> (len (. (at (. tempTx Inputs) k) UnlockingScript)) 0))))
+//@   loop 0 invariant (forall ((k Int)) (=> (and (<= 0 k) (< k (len (. tempTx Inputs)))) (and (= (. (at (. tempTx Inputs) k) PreviousTxScript) (old (. (at (. tx Inputs) k) PreviousTxScript))) (= (. (at (. tempTx Inputs) k) PreviousTxSatoshis) (old (. (at (. tx Inputs) k) PreviousTxSatoshis))) (not (nil? (. (at (. tempTx Inputs) k) UnlockingScript))))))
+//@   loop 0 invariant (forall ((k Int)) (=> (and (<= 0 k) (< k (len (. tempTx Outputs)))) (= (. (at (. tempTx Outputs) k) Satoshis) (old (. (at (. tx Outputs) k) Satoshis)))))
+
+//@ func bt.(*Tx).EstimateSize
+//@   requires (spec.inputs_nonnil tx) (spec.outputs_nonnil tx)
+//@ func bt.(*Tx).EstimateSizeWithTypes
+//@   requires (spec.inputs_nonnil tx) (spec.outputs_nonnil tx)
+//@ func bt.(*Tx).EstimateFeesPaid
+//@   requires (spec.inputs_nonnil tx) (spec.outputs_nonnil tx)
+//@   requires (=> (not (nil? fees)) (spec.wf_quote fees))
+//@   ensures[C11.estimate_fees_formula] (=> (= err nil) (and (not (nil? result)) (= (. result TotalFeePaid) (spec.quoted fees (old (spec.est_std tx)) (old (spec.est_data tx))))))
+//@ func bt.(*Tx).EstimateIsFeePaidEnough
+//@   requires (spec.inputs_nonnil tx) (spec.outputs_nonnil tx)
+//@   requires (=> (not (nil? fees)) (spec.wf_quote fees))
+//@ func bt.(*Tx).estimateDeficit
+//@   requires (spec.inputs_nonnil tx) (spec.outputs_nonnil tx)
+//@   requires (=> (not (nil? fees)) (spec.wf_quote fees))
+//@   requires (< (spec.sum_in tx) 18446744073709551616) (< (spec.sum_out tx) 18446744073709551616) (<= 0 (spec.sum_in tx)) (<= 0 (spec.sum_out tx))
+//@   ensures[C12.deficit] (=> (= err nil) (= r0 (ite (> (old (spec.sum_in tx)) (+ (old (spec.sum_out tx)) (spec.quoted fees (old (spec.est_std tx)) (old (spec.est_data tx))))) 0 (- (+ (old (spec.sum_out tx)) (spec.quoted fees (old (spec.est_std tx)) (old (spec.est_data tx)))) (old (spec.sum_in tx))))))
